@@ -1,13 +1,95 @@
-(* C02 — every operation sequence follows S3 bucket/object semantics.  (growing) *)
-From GF Require Import Base.Bytes Model.Mem Proofs.MemProofs.
+(* C02 — Every operation sequence follows S3 bucket/object semantics.
+   Model: Model/Mem.v + Model/Handlers.v (step/run).  The laws below hold in EVERY state that
+   satisfies the invariant, and the invariant holds after EVERY operation sequence — so each law
+   holds after every history, for any buckets, keys, bodies and configuration. *)
+From GF Require Import Base.Bytes Base.SortedMap Model.Mem Model.BucketName Model.Handlers
+  Proofs.MemInvDef Proofs.MemInv Proofs.MemProofs.
 
-Theorem C02_read_after_write : forall s b k body m s' vid,
-  put_object s b k body m = (s', (None, vid)) ->
-  exists v sv, get_object s' b k = OObj v sv /\ vd_body v = body /\ vd_meta v = m /\ vd_marker v = false.
-Proof. exact get_after_put. Qed.
+(* every reachable state satisfies the invariant (sorted maps, every object has a current version) *)
+Theorem C02_reachable_inv : forall c ops, Inv (fst (run c init ops)).
+Proof. exact run_inv. Qed.
+Print Assumptions C02_reachable_inv.
+
+Theorem C02_step_inv : forall c s o, Inv s -> Inv (fst (step c s o)).
+Proof. exact step_inv. Qed.
+Print Assumptions C02_step_inv.
+
+(* reads return the most recent acknowledged write *)
+Theorem C02_read_after_write : forall c s b k body m s1 vid,
+  step c s (OPut b k body m) = (s1, RPut vid) ->
+  exists v sv, snd (step c s1 (OGet b k None)) = RObj v sv /\ vd_body v = body /\ vd_meta v = m.
+Proof. exact law_get_after_put. Qed.
 Print Assumptions C02_read_after_write.
 
-Theorem C02_put_frame : forall s b k body m s' r b' k',
-  put_object s b k body m = (s', r) -> (b', k') <> (b, k) -> get_object s' b' k' = get_object s b' k'.
-Proof. exact get_put_other. Qed.
+(* ... and a write changes no other key of any bucket *)
+Theorem C02_put_frame : forall c s b k body m b' k',
+  (b', k') <> (b, k) -> get_bucket s b' <> None ->
+  get_object (fst (step c s (OPut b k body m))) b' k' = get_object s b' k'.
+Proof. exact law_put_frame. Qed.
 Print Assumptions C02_put_frame.
+
+(* deleted keys answer NoSuchKey, deletes are idempotent, other keys are untouched *)
+Theorem C02_delete : forall c s b k bk,
+  Inv s -> get_bucket s b = Some bk -> b_ver bk = VNone ->
+  let s1 := fst (step c s (ODelete b k)) in
+  get_object s1 b k = OErr ENoSuchKey /\
+  fst (step c s1 (ODelete b k)) = s1 /\
+  (forall b' k', (b', k') <> (b, k) -> get_object s1 b' k' = get_object s b' k').
+Proof. exact law_delete. Qed.
+Print Assumptions C02_delete.
+
+(* operations on absent buckets answer NoSuchBucket and change nothing *)
+Theorem C02_missing_bucket : forall c s b k,
+  cfg_auto_bucket c = false -> get_bucket s b = None ->
+  snd (step c s (OGet b k None)) = RErr ENoSuchBucket /\
+  step c s (ODeleteBucket b) = (s, RErr ENoSuchBucket) /\
+  (forall body m, step c s (OPut b k body m) = (s, RErr ENoSuchBucket)).
+Proof. exact law_missing_bucket. Qed.
+Print Assumptions C02_missing_bucket.
+
+(* re-creating a bucket answers BucketAlreadyExists *)
+Theorem C02_recreate_conflict : forall c s b bk,
+  get_bucket s b = Some bk -> validate b = true ->
+  step c s (OCreateBucket b) = (s, RErr EBucketAlreadyExists).
+Proof. exact law_create_existing. Qed.
+Print Assumptions C02_recreate_conflict.
+
+(* deleting a non-empty bucket answers BucketNotEmpty; an emptied bucket can be deleted *)
+Theorem C02_delete_nonempty_refused : forall c s b bk,
+  get_bucket s b = Some bk -> b_objs bk <> [] ->
+  step c s (ODeleteBucket b) = (s, RErr EBucketNotEmpty).
+Proof. exact law_delete_nonempty_bucket. Qed.
+Print Assumptions C02_delete_nonempty_refused.
+
+Theorem C02_delete_emptied_ok : forall c s b bk,
+  Inv s -> get_bucket s b = Some bk -> b_objs bk = [] ->
+  exists s1, step c s (ODeleteBucket b) = (s1, ROk) /\ get_bucket s1 b = None /\
+             (forall b', b' <> b -> get_bucket s1 b' = get_bucket s b').
+Proof. exact law_delete_empty_bucket. Qed.
+Print Assumptions C02_delete_emptied_ok.
+
+(* a copy leaves the destination equal to the source and the source unchanged *)
+Theorem C02_copy : forall c s sb sk b k s1 body,
+  step c s (OCopy sb sk b k) = (s1, RCopy body) ->
+  (exists v sv, get_object s sb sk = OObj v sv /\ vd_body v = body) /\
+  (exists v' sv', get_object s1 b k = OObj v' sv' /\ vd_body v' = body) /\
+  ((sb, sk) <> (b, k) -> get_bucket s sb <> None -> get_object s1 sb sk = get_object s sb sk).
+Proof. exact law_copy. Qed.
+Print Assumptions C02_copy.
+
+(* an operation answered with an error changes nothing *)
+Theorem C02_error_frame : forall c s o e,
+  cfg_auto_bucket c = false -> snd (step c s o) = RErr e -> fst (step c s o) = s.
+Proof. exact law_error_frame. Qed.
+Print Assumptions C02_error_frame.
+
+(* non-vacuity: a concrete history reaches a state where the hypotheses hold *)
+Definition c02_cfg := {| cfg_auto_bucket := false; cfg_versioned := true; cfg_pages := true; cfg_fail_unimpl_page := false |}.
+Example C02_ex_history :
+  map (fun r => match r with RErr e => Some e | _ => None end)
+      (snd (run c02_cfg init
+        [OCreateBucket [98;107;116]%N; OPut [98;107;116]%N [97]%N [1;2]%N []; OCreateBucket [98;107;116]%N;
+         ODeleteBucket [98;107;116]%N; ODelete [98;107;116]%N [97]%N; OGet [98;107;116]%N [97]%N None;
+         ODeleteBucket [98;107;116]%N; OGet [98;107;116]%N [97]%N None]))
+  = [None; None; Some EBucketAlreadyExists; Some EBucketNotEmpty; None; Some ENoSuchKey; None; Some ENoSuchBucket].
+Proof. vm_compute. reflexivity. Qed.
